@@ -146,3 +146,103 @@ Proof.
       destruct (mem_bytes (sg_name s) seen); norm_msg; rewrite IH; [rewrite <- app_assoc|]; reflexivity. }
   specialize (H (m_signals m) ds []). destruct (lint_for body (m_signals m) (ds, [])) as [ds1 ns]. cbn in H. now subst.
 Qed.
+
+(* ---- intervals, nodereferences, uniquenodenames ------------------------------------------------- *)
+Ltac leaf := norm_msg; cbn [negb app]; rewrite ?app_nil_r, <- ?app_assoc; cbn [app]; try reflexivity.
+
+Lemma TL_intervals_run_eq : forall f, LintTranslated.intervals_run f = Lint.intervals_run f.
+Proof.
+  intros f. unfold LintTranslated.intervals_run, Lint.intervals_run, intervals_with, for_each. cbv zeta. f_equal.
+  loop_flat; [reflexivity|].
+  destruct x; try (fin; fail);
+    cbv beta iota delta [as_EnvironmentVariableDef as_MessageDef as_AttributeDef MessageDef_Signals intervals_signals
+                         intervals_attribute for_each].
+  - f_equal. loop_flat; [reflexivity|].
+    unfold SignalDef_Minimum, SignalDef_Maximum, MessageDef_Pos. destruct (f64_gt (sg_min x) (sg_max x)); leaf.
+  - unfold EnvironmentVariableDef_Minimum, EnvironmentVariableDef_Maximum, EnvironmentVariableDef_Pos.
+    destruct (f64_gt (ev_min e) (ev_max e)); leaf.
+  - unfold AttributeDef_MinimumInt, AttributeDef_MaximumInt, AttributeDef_MinimumFloat, AttributeDef_MaximumFloat, AttributeDef_Pos.
+    destruct (ad_max_int a <? ad_min_int a); destruct (f64_gt (ad_min_float a) (ad_max_float a)); leaf.
+Qed.
+
+Lemma add_names_for : forall (body : bytes -> list bytes -> ctl (list bytes)),
+  (forall n d, body n d = Next (n :: d)) -> forall names d, lint_for body names d = add_names d names.
+Proof. intros body H names; induction names; intros d; cbn [lint_for add_names]; [reflexivity|]. rewrite H. apply IHnames. Qed.
+
+Lemma TL_nodereferences_run_eq : forall f, LintTranslated.nodereferences_run f = Lint.nodereferences_run f.
+Proof.
+  intros f. unfold LintTranslated.nodereferences_run, Lint.nodereferences_run. cbv zeta.
+  match goal with |- context [lint_for ?b (f_defs f) [?ph]] =>
+    assert (H : forall l d, lint_for b l d = collect_nodes d l) end.
+  { induction l as [|x l IH]; intros d; cbn [lint_for collect_nodes]; [reflexivity|].
+    destruct x; try (cbn; apply IH).
+    cbv beta iota delta [as_NodesDef NodesDef_NodeNames snd]. rewrite (add_names_for _ (fun n d => eq_refl)). apply IH. }
+  rewrite H. change [86; 101; 99; 116; 111; 114; 95; 95; 88; 88; 88] with node_placeholder.
+  set (declared := collect_nodes [node_placeholder] (f_defs f)).
+  change (collect_nodes [node_placeholder] (f_defs f)) with declared. clearbody declared. clear H.
+  unfold for_each, undeclared, for_each. f_equal.
+  loop_flat; [reflexivity|].
+  destruct x; try (fin; fail);
+    cbv beta iota delta [as_EnvironmentVariableDef as_MessageDef as_MessageTransmittersDef MessageDef_Signals set_mem_bytes].
+  - unfold MessageDef_Transmitter, MessageDef_Pos. f_equal.
+    match goal with |- context [lint_for ?b (m_signals m) ?d0] => match goal with |- context [flat_map ?g (m_signals m)] =>
+      rewrite (lint_for_app _ g b) end end.
+    + destruct (mem_bytes (m_transmitter m) declared); leaf.
+    + intros s ds1. f_equal. unfold SignalDef_Receivers, SignalDef_Pos.
+      loop_flat; [reflexivity|]. destruct (mem_bytes x declared); leaf.
+  - f_equal. unfold MessageTransmittersDef_Transmitters, MessageTransmittersDef_Pos. cbn [fst snd].
+    loop_flat; [reflexivity|]. destruct (mem_bytes x declared); leaf.
+  - f_equal. unfold EnvironmentVariableDef_AccessNodes, EnvironmentVariableDef_Pos.
+    loop_flat; [reflexivity|]. destruct (mem_bytes x declared); leaf.
+Qed.
+
+Lemma unn_inner : forall (body : bytes -> list diagnostic * list bytes -> ctl (list diagnostic * list bytes)) p,
+  (forall n ds seen, body n (ds, seen) = Next (if mem_bytes n seen then ds ++ [diag p MDupNodeName] else ds, n :: seen)) ->
+  forall names ds seen,
+    lint_for body names (ds, seen) = (ds ++ fst (unn_names seen p names), snd (unn_names seen p names)).
+Proof.
+  intros body p H names; induction names as [|n tl IH]; intros ds seen; cbn [lint_for unn_names fst snd].
+  - now rewrite app_nil_r.
+  - rewrite H, IH. destruct (unn_names (n :: seen) p tl) as [ds' seen']. destruct (mem_bytes n seen); cbn [fst snd].
+    + now rewrite <- app_assoc.
+    + reflexivity.
+Qed.
+
+Lemma TL_uniquenodenames_run_eq : forall f, LintTranslated.uniquenodenames_run f = Lint.uniquenodenames_run f.
+Proof.
+  intros f. unfold LintTranslated.uniquenodenames_run, Lint.uniquenodenames_run. cbv zeta.
+  match goal with |- context [lint_for ?b _ _] => set (body := b) end.
+  assert (H : forall l ds seen, fst (lint_for body l (ds, seen)) = ds ++ unn_loop seen l).
+  { induction l as [|d l IH]; intros ds seen; cbn [lint_for unn_loop fst].
+    - now rewrite app_nil_r.
+    - destruct d; try (cbn; apply IH).
+      cbn [body as_NodesDef]. unfold NodesDef_NodeNames, NodesDef_Pos. cbn [fst snd].
+      rewrite (unn_inner _ pos); [| intros n ds0 seen0; unfold set_mem_bytes; destruct (mem_bytes n seen0); norm_msg; reflexivity].
+      destruct (unn_names seen pos names) as [ds' seen']. cbn [fst snd]. rewrite IH. now rewrite <- app_assoc. }
+  specialize (H (f_defs f) [] []). destruct (lint_for body (f_defs f) ([], [])) as [ds ids]. cbn in H. now subst.
+Qed.
+
+(* ---- requireddefinitions: counts per dynamic type, first missing required kind reported, then break ---- *)
+Lemma kind_eqb_eq : forall a b, kind_eqb a b = true -> a = b.
+Proof. destruct a, b; cbn; intros H; try reflexivity; discriminate. Qed.
+
+Lemma count_fold : forall (body : def -> list (def_kind * Z) -> ctl (list (def_kind * Z))),
+  (forall d m, body d m = Next (map_inc_kind (kind_of d) m)) ->
+  forall k l m, map_getd_kind k (lint_for body l m) = count_kind k l + map_getd_kind k m.
+Proof.
+  intros body H k l; induction l as [|d l IH]; intros m; cbn [lint_for count_kind]; [reflexivity|].
+  rewrite H, IH. unfold map_inc_kind; cbn [map_getd_kind].
+  replace (kind_eqb k (kind_of d)) with (kind_eqb (kind_of d) k) by (unfold kind_eqb; apply Z.eqb_sym).
+  destruct (kind_eqb (kind_of d) k) eqn:E; [apply kind_eqb_eq in E; subst|]; lia.
+Qed.
+
+Lemma TL_requireddefinitions_run_eq : forall f, LintTranslated.requireddefinitions_run f = Lint.requireddefinitions_run f.
+Proof.
+  intros f. unfold LintTranslated.requireddefinitions_run, Lint.requireddefinitions_run. cbv zeta.
+  unfold h_requireddefinitions_requiredDefinitions, required_kinds.
+  cbn [lint_for required_loop kind_of zero_BitTimingDef zero_NodesDef].
+  rewrite !(count_fold _ (fun d m => eq_refl)). cbn [map_getd_kind]. rewrite !Z.add_0_r.
+  destruct (count_kind KBitTiming (f_defs f) =? 0); [destruct (f_defs f); norm_msg; reflexivity|].
+  destruct (count_kind KNodes (f_defs f) =? 0); [destruct (f_defs f); norm_msg; reflexivity|].
+  reflexivity.
+Qed.
